@@ -864,6 +864,10 @@ def corr_ecdsa(ctx, lib, cs):
             else:
                 sigs = []
             sigs += [(r.randrange(0, n + 2), r.randrange(0, n + 2)) for _ in range(3)]
+            # crafted: r = -e/d mod n makes u1*G + u2*Q the point at infinity for every s
+            r_inf = (-e * pow(d, -1, n)) % n
+            sigs += [(r_inf, sv) for sv in (1, n - 1, r.randrange(1, n))]
+            ctx.dist["verifies/toy:infinity-signature"] += 3 if r_inf else 0
             for (a, b) in sigs:
                 v = run_impl(vk.pubkey.verifies, e, E.Signature(a, b))
                 cs.add("verifies/toy", "res_eqb Bool.eqb (verifies %s %s %s %s %s) %s" % (
@@ -894,6 +898,13 @@ def corr_ecdsa(ctx, lib, cs):
                     muts += [bytes(bb), sig[:-1], sig + b"\0"]
                 else:
                     muts += [(sig[0], bytes([sig[1][0] ^ 1]) + sig[1][1:]), (sig[0],), (sig[0] + b"\0", sig[1])]
+                if digest:
+                    e_d = o_bits2int(digest[:lib.util.orderlen(n)], n.bit_length()) if allow else int.from_bytes(digest, "big")
+                    r_inf = (-e_d * pow(d, -1, n)) % n
+                    if r_inf:
+                        cm = run_impl(getattr(lib.util, ENC[kind][0]), r_inf, r.randrange(1, n), n)
+                        if cm[0] == "ok":
+                            muts.append(cm[1])
                 for m in muts:
                     for dg, al in ((digest, allow), (digest + b"\x01", True)):
                         v = run_s(lib, vk.verify_digest, m, dg, getattr(lib.util, ENC[kind][1]), al)
@@ -944,7 +955,8 @@ def corr_ecdsa(ctx, lib, cs):
             rr, ss = getattr(lib.util, ENC[kind][1])(sig, n)
             e = oc.e_of(digest)
             variants = [(rr, ss, digest), (rr, n - ss, digest), (rr, ss + n, digest), (rr + n, ss, digest), (rr, ss, digest[:-1] + bytes([digest[-1] ^ 1])),
-                        (r.randrange(1, n), r.randrange(1, n), digest), (0, ss, digest), (rr, 0, digest), (n, ss, digest)]
+                        (r.randrange(1, n), r.randrange(1, n), digest), (0, ss, digest), (rr, 0, digest), (n, ss, digest),
+                        ((-e * pow(d, -1, n)) % n, r.randrange(1, n), digest)]
             for (a, b, dg) in variants:
                 ee = oc.e_of(dg)
                 ents = []
@@ -1219,6 +1231,41 @@ def search_range(ctx, lib, ocs):
                 if vk.pubkey.verifies(e, E.Signature(a, b)) is not True:
                     ctx.fail("valid-signature-rejected", {"curve": oc.name, "d": sk.privkey.secret_multiplier, "digest": digest,
                                                           "r": a, "s": b, "k": knonce, "twin": b != ss}, "")
+
+
+def search_infinity(ctx, lib, ocs):
+    """crafted in-range signatures with r = -e/d mod n: u1*G + u2*Q is the point at infinity
+    (no x-coordinate) for every s; verification must answer BadSignatureError / False"""
+    r = ctx.rng
+    E = lib.ecdsa
+    for oc in ocs:
+        c, n = oc.curve, oc.n
+        for j in range(ctx.budget(2, 12) * (3 if ctx.brokens else 1)):
+            d = r.choice([12345, r.randrange(1, n), r.randrange(1, n)]) if j else 12345
+            sk = lib.keys.SigningKey.from_secret_exponent(d, c)
+            vk = sk.get_verifying_key()
+            digest = bytes(range(32)) if j == 0 else rbytes(r, r.choice([20, 28, 32, 48, 64]))
+            e = oc.e_of(digest)
+            rr = (-e * pow(d, -1, n)) % n
+            if rr == 0:
+                continue
+            for sv in [7 % n or 1, n - 1, r.randrange(1, n)]:
+                ctx.case(("infinity", oc.name, d, digest, sv))
+                info = {"curve": oc.name, "d": d, "digest": digest, "r": rr, "s": sv}
+                # independent check of the construction: e/s * G + r/s * Q is the neutral element
+                w = pow(sv, -1, n)
+                if o_add(oc.mulG(e * w % n), o_mul(rr * w % n, oc.mulG(d), oc.p, oc.a), oc.p, oc.a) is not None:
+                    ctx.notes.append("infinity construction failed on %s" % oc.name)
+                    continue
+                v = run_impl(vk.pubkey.verifies, e, E.Signature(rr, sv))
+                if v != ("ok", False):
+                    ctx.fail("infinity-signature-error-type", dict(info, enc="Public_key.verifies"), "Public_key.verifies -> %r, expected False" % (v,))
+                for kind in ("string", "strings", "der"):
+                    enc, dec = enc_pair(lib, kind, False)
+                    got = run_s(lib, vk.verify_digest, enc(rr, sv, n), digest, dec, True)
+                    if got[:2] != ("err", "SBadSig"):
+                        ctx.fail("infinity-signature-error-type", dict(info, enc=kind),
+                                 "verify_digest -> %r, expected BadSignatureError" % (got,))
 
 
 def search_malformed(ctx, lib, ocs):
@@ -1534,6 +1581,7 @@ def search(ctx):
     search_toy(ctx, lib)
     search_toy_deterministic(ctx, lib)
     search_range(ctx, lib, ocs)
+    search_infinity(ctx, lib, ocs)
     search_digest(ctx, lib, ocs)
     search_malformed(ctx, lib, ocs)
     search_matrix(ctx, lib, ocs)
@@ -1544,7 +1592,8 @@ def search(ctx):
         "sign_digest/verify_digest/sign_digest_deterministic on 16 toy curves (complete x tables) and the 17 shipped curves "
         "(per-case x entries from an independent affine implementation), RFC 6979 A.2 vectors through the model; "
         "search (real implementation): RFC 6979 A.2.3-A.2.7 vectors, generate_k vs an independent section-3.2 stream on small "
-        "orders, exhaustive (key, nonce) on toy curves, out-of-range r,s via every decoder, digest truncation = leftmost bits, "
+        "orders, exhaustive (key, nonce) on toy curves, out-of-range r,s via every decoder, crafted r = -e/d (point at infinity) on all "
+        "17 curves x 3 encodings, digest truncation = leftmost bits, "
         "truncated/extended/junk/crafted encodings, the matrix 17 curves x 5 hashes x 3 encodings x canonize x {random, "
         "deterministic} with independent SEC 1 verification, other key, single-bit flips of message and signature "
         "(sampled in quick; exhaustive for one (hash, encoding) per curve in thorough), OpenSSL both directions (thorough). "
@@ -1572,6 +1621,19 @@ def replay_one(lib, by, f):
         got = run_s(lib, vk.verify_digest, (d["r"], d["s"]), _hx(d["digest"]), lambda s, o: s, True)
         print("  verify_digest((r, s)) ->", got, " expected BadSignatureError")
         return got[:2] != ("err", "SBadSig")
+    if kind == "infinity-signature-error-type":
+        c = by[d["curve"]]
+        vk = lib.keys.SigningKey.from_secret_exponent(d["d"], c).get_verifying_key()
+        digest = _hx(d["digest"])
+        v = run_impl(vk.pubkey.verifies, OC(c).e_of(digest), lib.ecdsa.Signature(d["r"], d["s"]))
+        print("  Public_key.verifies ->", v, " expected False")
+        bad = v != ("ok", False)
+        for knd in ("string", "strings", "der"):
+            enc, dec = enc_pair(lib, knd, False)
+            got = run_s(lib, vk.verify_digest, enc(d["r"], d["s"], c.order), digest, dec, True)
+            print("  verify_digest(%s) ->" % knd, got, " expected BadSignatureError")
+            bad |= got[:2] != ("err", "SBadSig")
+        return bad
     if kind == "generate_k-differs":
         got = run_impl(lib.rfc6979.generate_k, d["order"], d["secexp"], getattr(hashlib, d["hash"]),
                        _hx(d["data"]), d["retry_gen"], _hx(d["extra"]))
